@@ -40,6 +40,11 @@ type CaseC18 struct {
 	// of the code under test). This is what lets timers inside the producer fire.
 	ConsStall []int64 `json:"consumer_work_ns"`
 	FaultAt   int     `json:"fault_at"` // read fault offset, -1 none
+	// Comment is the comment character of the parser configuration ('#' documented default, ';', or 0 = none)
+	Comment int `json:"comment_char"`
+	// Second, if not empty, is parsed afterwards through the SAME Parser value (a Parser is reusable:
+	// the repository's own benchmark does it); it is only run when the first stream was drained to completion.
+	Second string `json:"second,omitempty"`
 }
 
 // stallReader is the simulated transport between file and producer.
@@ -108,6 +113,14 @@ func genC18(thorough bool) func(t *rapid.T) Case {
 		if c.Entry == "stream" && rapid.IntRange(0, 3).Draw(t, "read_fault") == 3 {
 			c.FaultAt = rapid.IntRange(0, len(c.Text)).Draw(t, "fault_at")
 		}
+		c.Comment = rapid.SampledFrom([]int{'#', '#', '#', ';', 0}).Draw(t, "comment_char")
+		if rapid.IntRange(0, 2).Draw(t, "second_stream") == 2 {
+			second := render(genBook(t, BookOpts{MaxRecipes: 3}), plainLayout)
+			if rapid.Bool().Draw(t, "second_bad") {
+				second += "x:\n  nospace:1\n"
+			}
+			c.Second = second
+		}
 		return c
 	}
 }
@@ -119,10 +132,10 @@ type refResult struct {
 
 // reference runs the callback parser the way the channel adapter is documented
 // to: records until the first error.
-func (c *CaseC18) reference() refResult {
+func (c *CaseC18) reference(text string, faultAt int) refResult {
 	var ref refResult
-	var r io.Reader = &stallReader{data: c.Text, faultAt: c.FaultAt}
-	err := parser.ParseStreamCallback(r, parser.NewDefaultConfig(), func(n *shared.ParserNode, err error) (bool, error) {
+	var r io.Reader = &stallReader{data: text, faultAt: faultAt}
+	err := parser.ParseStreamCallback(r, parser.Config{CommentChar: uint8(c.Comment)}, func(n *shared.ParserNode, err error) (bool, error) {
 		if err != nil {
 			return true, err
 		}
@@ -149,19 +162,23 @@ type recvEvent struct {
 	val  string
 }
 
+// streamObs is what was observed while one stream went through the channel parser.
+type streamObs struct {
+	label                                       string
+	ref                                         refResult
+	history                                     []recvEvent
+	consumerFinished, producerExitedAfterPolicy bool
+	producerExitedAtEnd                         bool
+	producerPanic                               string
+}
+
 // Eval runs producer and consumer inside a synctest bubble.
 func (c *CaseC18) Eval(ob *Obs) []Finding {
-	var history []recvEvent
 	var decisions []string // the interleaving actually taken: scheduler decisions and receives, in order
-	var producerExitedAfterPolicy, consumerFinished, producerExitedAtEnd bool
+	var streams []*streamObs
 	var deadlock string
-	sigTail := " entry=" + c.Entry + " policy=" + c.Policy
-	ref := refResult{}
-	switch c.Entry {
-	case "file-missing", "file-eacces":
-		ref.firstErr = "open"
-	default:
-		ref = c.reference()
+	if c.Comment == 0 && c.Entry == "" {
+		c.Comment = '#'
 	}
 
 	func() {
@@ -182,155 +199,189 @@ func (c *CaseC18) Eval(ob *Obs) []Finding {
 			sch.install()
 			defer sch.uninstall()
 			takeParked, next := sch.take, sch.next
-
-			p := parser.NewParser(parser.NewDefaultConfig())
-			var exited atomic.Bool
+			p := parser.NewParser(parser.Config{CommentChar: uint8(c.Comment)})
 			var st *verifsim.State
-			switch c.Entry {
-			case "stream":
-				rd := &stallReader{data: c.Text, chunk: c.ReaderChunk, stalls: c.ReaderStall, faultAt: c.FaultAt}
-				go func() { p.ParseStream(rd); exited.Store(true) }()
-			default:
-				w := noFaultWorld()
-				kind := "file"
-				if c.Entry == "file-eacces" {
-					kind = "eacces"
+			defer func() {
+				if st != nil {
+					st.UninstallLight()
 				}
-				if c.Entry != "file-missing" {
-					chunk := ""
-					if c.ReaderChunk > 0 {
-						chunk = "fixed"
-					}
-					w.Files = []FileSpec{{Path: "/sim/in.yaml", Kind: kind, Data: c.Text, Plan: ReadPlan{FaultAt: -1, Chunk: chunk, MaxChunk: c.ReaderChunk}}}
-				}
-				st = verifsim.InstallLight(w)
-				go func() { p.ParseFile("/sim/in.yaml"); exited.Store(true) }()
-			}
+			}()
 
-			recording := true
-			record := func(kind, val string) {
-				if !recording {
-					return // clean-up after the consumer has finished: not part of what it observed
+			runStream := func(so *streamObs, entry, text string, faultAt int) {
+				var exited atomic.Bool
+				switch entry {
+				case "stream":
+					rd := &stallReader{data: text, chunk: c.ReaderChunk, stalls: c.ReaderStall, faultAt: faultAt}
+					go func() {
+						defer func() {
+							if r := recover(); r != nil {
+								so.producerPanic = fmt.Sprint(r)
+							}
+							exited.Store(true)
+						}()
+						p.ParseStream(rd)
+					}()
+				default:
+					w := noFaultWorld()
+					kind := "file"
+					if entry == "file-eacces" {
+						kind = "eacces"
+					}
+					if entry != "file-missing" {
+						chunk := ""
+						if c.ReaderChunk > 0 {
+							chunk = "fixed"
+						}
+						w.Files = []FileSpec{{Path: "/sim/in.yaml", Kind: kind, Data: text, Plan: ReadPlan{FaultAt: -1, Chunk: chunk, MaxChunk: c.ReaderChunk}}}
+					}
+					st = verifsim.InstallLight(w)
+					go func() {
+						defer func() {
+							if r := recover(); r != nil {
+								so.producerPanic = fmt.Sprint(r)
+							}
+							exited.Store(true)
+						}()
+						p.ParseFile("/sim/in.yaml")
+					}()
 				}
-				history = append(history, recvEvent{kind, val})
-				decisions = append(decisions, "recv:"+kind)
-				if n := len(c.ConsStall); n > 0 {
-					if d := c.ConsStall[(len(history)-1)%n]; d > 0 && kind != "done" {
-						time.Sleep(time.Duration(d)) // the consumer works on the event
+				recording := true
+				record := func(kind, val string) {
+					if !recording {
+						return // clean-up after the consumer has finished: not part of what it observed
+					}
+					so.history = append(so.history, recvEvent{kind, val})
+					decisions = append(decisions, "recv:"+kind)
+					if n := len(c.ConsStall); n > 0 {
+						if d := c.ConsStall[(len(so.history)-1)%n]; d > 0 && kind != "done" {
+							time.Sleep(time.Duration(d)) // the consumer works on the event
+						}
 					}
 				}
-			}
-			// tryRecv: one non-blocking receive attempt per channel, in the order the plan gives.
-			orders := [][3]int{{0, 1, 2}, {0, 2, 1}, {1, 0, 2}, {1, 2, 0}, {2, 0, 1}, {2, 1, 0}}
-			tryRecv := func(order [3]int) (got bool) {
-				for _, ch := range order {
-					switch ch {
-					case 0:
+				// tryRecv: one non-blocking receive attempt per channel, in the order the plan gives.
+				orders := [][3]int{{0, 1, 2}, {0, 2, 1}, {1, 0, 2}, {1, 2, 0}, {2, 0, 1}, {2, 1, 0}}
+				tryRecv := func(order [3]int) (got bool) {
+					for _, ch := range order {
+						switch ch {
+						case 0:
+							select {
+							case n := <-p.Nodes:
+								record("node", nodeString(n))
+								return true
+							default:
+							}
+						case 1:
+							select {
+							case err := <-p.Errors:
+								record("error", err.Error())
+								return true
+							default:
+							}
+						case 2:
+							select {
+							case <-p.Done:
+								record("done", "")
+								return true
+							default:
+							}
+						}
+					}
+					return false
+				}
+				finished := func() bool {
+					if len(so.history) == 0 {
+						return false
+					}
+					last := so.history[len(so.history)-1]
+					return last.kind == "done" || (last.kind == "error" && c.Policy == "documented") || len(so.history) > 10000
+				}
+				const quantum = 1024
+				idle := int64(0)
+				const idleBudget = int64(1) << 42 // fake nanoseconds without any possible step: the consumer would wait for ever
+				// the consumer, driven by the plan
+				for !finished() && idle < idleBudget {
+					synctest.Wait()
+					recvFirst, order, pick, consumerFirst := next()%2 == 0, orders[next()%6], next(), next()%2 == 1
+					if recvFirst && tryRecv(order) {
+						idle = 0
+						continue
+					}
+					if g := takeParked(pick); g != nil {
+						idle = 0
+						decisions = append(decisions, fmt.Sprintf("release:%s:%v", g.site, consumerFirst))
+						if !consumerFirst {
+							close(g.ch) // the goroutine runs until it parks again, blocks, sleeps or ends
+							continue
+						}
+						// consumer first: it is already waiting in its select when the goroutine moves on
+						go func() { time.Sleep(1); close(g.ch) }()
 						select {
 						case n := <-p.Nodes:
 							record("node", nodeString(n))
-							return true
-						default:
-						}
-					case 1:
-						select {
 						case err := <-p.Errors:
 							record("error", err.Error())
-							return true
-						default:
-						}
-					case 2:
-						select {
 						case <-p.Done:
 							record("done", "")
-							return true
-						default:
+						case <-time.After(quantum):
+						}
+						continue
+					}
+					if !recvFirst && tryRecv(order) {
+						idle = 0
+						continue
+					}
+					// nobody can move now: let fake time pass (a stalled reader may wake up)
+					d := int64(quantum)
+					if idle > 0 {
+						d = idle
+					}
+					idle += d
+					time.Sleep(time.Duration(d))
+				}
+				so.consumerFinished = finished()
+				recording = false
+				// let the producer side run as far as it can on its own
+				for i := 0; i < 100000; i++ {
+					synctest.Wait()
+					g := takeParked(0)
+					if g == nil {
+						break
+					}
+					close(g.ch)
+				}
+				synctest.Wait()
+				so.producerExitedAfterPolicy = exited.Load()
+				// release whatever is still sending, so that the next stream / the end of the bubble is not blocked
+				for i := 0; i < 100000 && !exited.Load(); i++ {
+					synctest.Wait()
+					if g := takeParked(0); g != nil {
+						close(g.ch)
+						continue
+					}
+					if !tryRecv(orders[0]) {
+						time.Sleep(quantum << 20)
+						if i > 64 {
+							break
 						}
 					}
 				}
-				return false
-			}
-			finished := func() bool {
-				if len(history) == 0 {
-					return false
-				}
-				last := history[len(history)-1]
-				return last.kind == "done" || (last.kind == "error" && c.Policy == "documented") || len(history) > 10000
-			}
-			const quantum = 1024
-			idle := int64(0)
-			const idleBudget = int64(1) << 42 // fake nanoseconds without any possible step: the consumer would wait for ever
-			// the consumer, driven by the plan
-			for !finished() && idle < idleBudget {
 				synctest.Wait()
-				recvFirst, order, pick, consumerFirst := next()%2 == 0, orders[next()%6], next(), next()%2 == 1
-				if recvFirst && tryRecv(order) {
-					idle = 0
-					continue
-				}
-				if g := takeParked(pick); g != nil {
-					idle = 0
-					decisions = append(decisions, fmt.Sprintf("release:%s:%v", g.site, consumerFirst))
-					if !consumerFirst {
-						close(g.ch) // the goroutine runs until it parks again, blocks, sleeps or ends
-						continue
-					}
-					// consumer first: it is already waiting in its select when the goroutine moves on
-					go func() { time.Sleep(1); close(g.ch) }()
-					select {
-					case n := <-p.Nodes:
-						record("node", nodeString(n))
-					case err := <-p.Errors:
-						record("error", err.Error())
-					case <-p.Done:
-						record("done", "")
-					case <-time.After(quantum):
-					}
-					continue
-				}
-				if !recvFirst && tryRecv(order) {
-					idle = 0
-					continue
-				}
-				// nobody can move now: let fake time pass (a stalled reader may wake up)
-				d := int64(quantum)
-				if idle > 0 {
-					d = idle
-				}
-				idle += d
-				time.Sleep(time.Duration(d))
+				so.producerExitedAtEnd = exited.Load()
 			}
-			consumerFinished = finished()
-			recording = false
-			// let the producer side run as far as it can on its own
-			for i := 0; i < 100000; i++ {
-				synctest.Wait()
-				g := takeParked(0)
-				if g == nil {
-					break
-				}
-				close(g.ch)
+
+			first := &streamObs{label: ""}
+			switch c.Entry {
+			case "file-missing", "file-eacces":
+				first.ref.firstErr = "open"
+			default:
+				first.ref = c.reference(c.Text, c.FaultAt)
 			}
-			synctest.Wait()
-			producerExitedAfterPolicy = exited.Load()
-			// release whatever is still sending, so that the bubble can end
-			for i := 0; i < 100000 && !exited.Load(); i++ {
-				synctest.Wait()
-				if g := takeParked(0); g != nil {
-					close(g.ch)
-					continue
-				}
-				if !tryRecv(orders[0]) {
-					time.Sleep(quantum << 20)
-					if i > 64 {
-						break
-					}
-				}
-			}
-			synctest.Wait()
-			producerExitedAtEnd = exited.Load()
-			if st != nil {
-				st.UninstallLight()
+			streams = append(streams, first)
+			runStream(first, c.Entry, c.Text, c.FaultAt)
+			if c.Second != "" && c.Policy == "drain" && first.consumerFinished && first.producerExitedAfterPolicy {
+				second := &streamObs{label: " stream=second-on-the-same-Parser", ref: c.reference(c.Second, -1)}
+				streams = append(streams, second)
+				runStream(second, "stream", c.Second, -1)
 			}
 		})
 	}()
@@ -350,12 +401,25 @@ func (c *CaseC18) Eval(ob *Obs) []Finding {
 			break
 		}
 	}
-	if producerExitedAfterPolicy {
-		ob.probe("producer_exited_after_policy")
-	} else if consumerFinished {
-		ob.probe("producer_blocked_detected")
+	if len(streams) > 1 {
+		ob.probe("second_stream_on_same_parser")
 	}
+	var out []Finding
+	for _, so := range streams {
+		if so.producerExitedAfterPolicy {
+			ob.probe("producer_exited_after_policy")
+		} else if so.consumerFinished {
+			ob.probe("producer_blocked_detected")
+		}
+		out = append(out, c.judge(so, deadlock)...)
+	}
+	return out
+}
 
+// judge compares what the consumer saw of one stream with the callback parser.
+func (c *CaseC18) judge(so *streamObs, deadlock string) []Finding {
+	sigTail := " entry=" + c.Entry + " policy=" + c.Policy + so.label
+	history, ref := so.history, so.ref
 	var out []Finding
 	hist := func() string {
 		var b strings.Builder
@@ -364,10 +428,13 @@ func (c *CaseC18) Eval(ob *Obs) []Finding {
 		}
 		return b.String()
 	}
-	if !consumerFinished {
+	if so.producerPanic != "" {
+		return append(out, Finding{"C18 producer-panics" + sigTail, fmt.Sprintf("%s; the consumer had received [%s]", so.producerPanic, hist())})
+	}
+	if !so.consumerFinished {
 		return append(out, Finding{"C18 consumer-never-terminates" + sigTail, fmt.Sprintf("the consumer is blocked for ever after receiving [%s] (%s)", hist(), deadlock)})
 	}
-	if deadlock != "" && !producerExitedAtEnd {
+	if deadlock != "" && !so.producerExitedAtEnd {
 		// the clean-up loop could not release the producer: it is blocked on something that is not one of its channels
 		out = append(out, Finding{"C18 producer-stuck" + sigTail, deadlock})
 	}
@@ -409,7 +476,7 @@ func (c *CaseC18) Eval(ob *Obs) []Finding {
 		if dones != 1 {
 			out = append(out, Finding{"C18 no-completion-signal" + sigTail, fmt.Sprintf("history ended without Done: [%s]", hist())})
 		}
-		if !producerExitedAfterPolicy {
+		if !so.producerExitedAfterPolicy {
 			out = append(out, Finding{"C18 producer-leaks-after-drain" + sigTail, fmt.Sprintf("after the consumer received until completion the producer goroutine is still blocked; history [%s]", hist())})
 		}
 	} else {
